@@ -681,9 +681,30 @@ def r8(ctx, facts):
         raise AnchorLost("no place found where a statement's serial consistency is combined with the execution profile's")
 
 
+def r9(ctx, facts):
+    r = ctx.rule("R9", "batch values: the adapter that pairs value lists with statement contexts is as long as the VALUE LISTS (running out of contexts never ends it), so surplus lists are seen and refused", floor=3)
+    from ..util import dj_of
+    bodies = facts.find(r"^<scylla_cql::serialize::raw_batch::RawBatchValuesIteratorAdapter<BVI, CTX> as scylla_cql::serialize::raw_batch::RawBatchValuesIterator<'bvi>>::(serialize_next|is_empty_next|skip_next)$")
+    if len(bodies) < 3:
+        raise AnchorLost("RawBatchValuesIteratorAdapter: expected serialize_next / is_empty_next / skip_next, found %d" % len(bodies))
+    for b in bodies:
+        meth = b.path.split("::")[-1]
+        inner = [c for bb, c in b.calls() if bb in b.live_blocks and (c.decl or c.name or "").startswith("scylla_cql_core::serialize::batch::BatchValuesIterator::") or
+                 (bb in b.live_blocks and "BatchValuesIterator" in (c.decl or c.name or "") and (c.decl or c.name or "").endswith(meth))]
+        if not inner:
+            r.fail("length-follows-values:" + meth, "the adapter's %s does not ask the value-list iterator at all" % meth, b.span)
+            continue
+        dj = dj_of(b, facts)
+        reach = dj.feasible_reach(0, removed_nodes=[c.bb for c in inner])
+        bad = [x for x in b.exits if x in reach]
+        r.instance("length-follows-values:" + meth, not bad,
+                   "RawBatchValuesIteratorAdapter::%s can return without consulting the value-list iterator (e.g. `self.contexts.next()?`): the adapter then ends with the statements, "
+                   "Batch::do_serialize's check for surplus value lists sees None, and a batch with more value lists than statements is sent truncated instead of refused" % meth, b.span)
+
+
 def check(ctx):
     facts = inline_view(ctx.facts("default"))
-    for fn in (r1_r2, r6, r4, r5, r7, r8):
+    for fn in (r1_r2, r6, r4, r5, r7, r8, r9):
         try:
             fn(ctx, facts)
         except AnchorLost as ex:
